@@ -349,6 +349,14 @@ func derivesFromField(v ssa.Value, names ...string) bool {
 		if _, isLookup := x.(*ssa.Lookup); isLookup {
 			return false // the result of a map lookup (an id) is a different domain than its key
 		}
+		if prm, ok := x.(*ssa.Parameter); ok && curProg != nil {
+			for _, cs := range curProg.callers[prm.Parent()] {
+				if i := paramIndex(prm); i >= 0 && i < len(cs.Call.Common().Args) && walk(cs.Call.Common().Args[i], d+1) {
+					return true
+				}
+			}
+			return false
+		}
 		if in, ok := x.(ssa.Instruction); ok {
 			for _, op := range in.Operands(nil) {
 				if *op != nil && walk(*op, d+1) {
@@ -375,36 +383,51 @@ func rulePlanKeys(c *Ctx) {
 	}
 	for _, f := range fns {
 		cnt := 0
-		eachInstr(f, func(r instrRef) {
-			var key ssa.Value
-			var what string
-			switch x := r.In.(type) {
-			case *ssa.MapUpdate:
-				key, what = x.Key, "map insert"
-			case *ssa.Lookup:
-				if _, isMap := x.X.Type().Underlying().(*types.Map); !isMap {
+		// the validator / the plan callback together with the private helpers and methods they are split into
+		for _, g := range c.unitOf(f) {
+			if g != f && g.Parent() != nil && isNested(g, f) && containsFn(fns, g) {
+				continue // a nested closure that is itself a subject
+			}
+			eachInstr(g, func(r instrRef) {
+				var key ssa.Value
+				var what string
+				switch x := r.In.(type) {
+				case *ssa.MapUpdate:
+					key, what = x.Key, "map insert"
+				case *ssa.Lookup:
+					if _, isMap := x.X.Type().Underlying().(*types.Map); !isMap {
+						return
+					}
+					key, what = x.Index, "map lookup"
+				default:
 					return
 				}
-				key, what = x.Index, "map lookup"
-			default:
-				return
-			}
-			if b, ok := key.Type().Underlying().(*types.Basic); !ok || b.Info()&types.IsString == 0 {
-				return
-			}
-			if !derivesFromField(key, "Title", "After") {
-				return
-			}
-			cnt++
-			tf := &textFlow{c: c, field: "Key", seen: map[ssa.Value]bool{}}
-			tf.walk(key, 0)
-			c.check(len(tf.problems) == 0, c.Name(f), fmt.Sprintf("title-key#%d", cnt), c.Pos(r.In.Pos()), what+" keyed by an input title verbatim",
-				"a "+what+" is keyed by a transformed title ("+strings.Join(uniq(tf.problems), "; ")+"): the validator and the plan builder no longer agree on what a title is, so a reference can validate yet resolve to no task (or two distinct titles collide)")
-		})
+				if b, ok := key.Type().Underlying().(*types.Basic); !ok || b.Info()&types.IsString == 0 {
+					return
+				}
+				if !derivesFromField(key, "Title", "After") {
+					return
+				}
+				cnt++
+				tf := &textFlow{c: c, field: "Key", seen: map[ssa.Value]bool{}}
+				tf.walk(key, 0)
+				c.check(len(tf.problems) == 0, c.Name(f), fmt.Sprintf("title-key#%d", cnt), c.Pos(r.In.Pos()), what+" keyed by an input title verbatim",
+					"a "+what+" is keyed by a transformed title ("+strings.Join(uniq(tf.problems), "; ")+"): the validator and the plan builder no longer agree on what a title is, so a reference can validate yet resolve to no task (or two distinct titles collide)")
+			})
+		}
 		if cnt == 0 {
 			c.bad(c.Name(f), "title-key#0", c.FnPos(f), "no title-keyed map operation found: plan title resolution not recognised")
 		}
 	}
+}
+
+func containsFn(fs []*ssa.Function, g *ssa.Function) bool {
+	for _, f := range fs {
+		if f == g {
+			return true
+		}
+	}
+	return false
 }
 
 func uniq(xs []string) []string {
